@@ -252,6 +252,17 @@ def rule_resolution(ctx):
                         if all(m_["args"] and m_["args"][0]["k"] == "Closure" and strip(m_["args"][0]["body"])["k"] == "Path" and strip(m_["args"][0]["body"])["path"] in [b_["name"] for i_ in m_["args"][0]["inputs"] for b_ in walk(i_) if b_["k"] == "PIdent"] for m_ in maps) and not (conditions_to(pf["body"], ext) or []):
                             oki = True
         ctx.check(R, "parse_file/every-include-resolved-and-errors-reported", oki, "every include of the parsed file goes through add_include and an Err is pushed to the reports", site(LIB, pf))
+        # ... whenever the file was parsed: between the successful parse and the queueing of its includes nothing leaves
+        # the function (a version error of this file is a report, its includes are still read)
+        ai = list(method_calls(pf["body"], "add_include"))
+        pr = [c for c in walk(pf["body"]) if c["k"] == "Call" and render(c["func"]).replace(" ", "").endswith("parser_logic::parse_file")]
+        if ai and pr:
+            stmts_ = pf["body"]["stmts"]
+            i_parse = max(i for i, st in enumerate(stmts_) if any(x is pr[0] for x in walk(st)))
+            i_inc = min(i for i, st in enumerate(stmts_) if any(x is ai[0] for x in walk(st)))
+            exits_ = [render(x)[:60] for st in stmts_[i_parse + 1:i_inc] for x in walk(st) if x["k"] in ("Try", "Return")]
+            exits_ += [render(x)[:60] for x in walk(stmts_[i_inc]) if x["k"] in ("Return",) ] if i_inc > i_parse else []
+            ctx.check(R, "parse_file/includes-queued-whenever-the-file-parsed", i_inc > i_parse and not exits_, "exits between the parse and the include loop: %s" % exits_, site(LIB, pf))
     pl = find_fn(PL, "parse_file")
     if pl is not None:
         t = render(pl["body"]).replace(" ", "")
@@ -387,9 +398,45 @@ def rule_only_named(ctx):
         ctx.check(R, "AnalysisRunner::%s_names/user-input-filter" % kind, okn, tt[:200], site(RUN, f))
 
 
+USER_INPUT_READERS = {
+    # (file suffix, function) -> why this function may ask whether a file was named by the user
+    ("parser/src/lib.rs", "parse_file"): "records the flag in the file library when the file is read",
+    ("program_analysis/src/analysis_runner.rs", "template_names"): "selects the definitions the top-level loop analyses",
+    ("program_analysis/src/analysis_runner.rs", "function_names"): "selects the definitions the top-level loop analyses",
+    ("cli/src/main.rs", "main"): "installs the display filter",
+    ("cli/src/main.rs", "filter_by_file"): "the display filter",
+    ("program_structure/src/program_library/file_definition.rs", "add_file"): "stores the flag",
+    ("program_structure/src/program_library/file_definition.rs", "is_user_input"): "the accessor",
+    ("program_structure/src/program_library/file_definition.rs", "user_inputs"): "the accessor",
+    ("parser/src/include_logic.rs", "is_user_input"): "the accessor",
+    ("parser/src/include_logic.rs", "new"): "the files named on the command line",
+}
+
+
+def rule_who_asks(ctx, R="C19.6"):
+    ctx.rule(R, "being `only included` restricts two things - which definitions the top-level loops analyse and which findings are displayed - and nothing else: no other function asks whether a file was named by the user (included definitions are desugared, lifted on demand and inform the analysis like any other)")
+    import facts as _facts
+
+    n = 0
+    for f in sorted(_facts.ast()):
+        if f.startswith("program_structure_tests"):
+            continue
+        for q, fn in fns_in_file(f):
+            if not fn.get("body") or "tests" in q:
+                continue
+            n += 1
+            hits = [m for m in walk(fn["body"]) if (m["k"] == "MethodCall" and m["method"] in ("is_user_input", "user_inputs")) or (m["k"] == "Field" and m.get("member") == "user_inputs")]
+            if not hits:
+                continue
+            why = [w for (ff, nm), w in USER_INPUT_READERS.items() if f.endswith(ff) and fn["name"] == nm]
+            ctx.check(R, "%s::%s/may-ask-for-user-input" % (f.rsplit("/", 1)[-1][:-3], fn["name"]), bool(why), why[0] if why else "`%s`: the treatment of a definition depends on whether its file was named on the command line" % render(hits[0])[:60], site(f, hits[0]))
+    ctx.floor(R, "functions scanned for user-input tests", n, 400)
+
+
 def run(ctx):
     rule_canonical(ctx)
     rule_visited(ctx)
     rule_resolution(ctx)
     rule_user_inputs(ctx)
     rule_only_named(ctx)
+    rule_who_asks(ctx)
